@@ -118,6 +118,15 @@ def check(run: Run) -> None:
     # visit_Name == stack.lookup_name(node.id, default=node)
     from ..terms import subst
 
+    # `found = lookup(id, default=SENTINEL); return node if found is SENTINEL else found` is the lookup with the node as default
+    if rt[0] == "ifexp" and rt[1][0] == "op" and rt[1][1] in ("Compare:Is", "Compare:IsNot") and len(rt[1][2]) == 2:
+        l_, s_ = rt[1][2]
+        hit, miss = (rt[3], rt[2]) if rt[1][1] == "Compare:Is" else (rt[2], rt[3])
+        if l_[0] == "app" and s_[0] == "global" and hit == l_ and isinstance(m.assign_value(vn.module, s_[1].split(".")[-1]) if hasattr(m, "assign_value") else vn.module.assigns.get(s_[1].split(".")[-1]), ast.Call):
+            kw_ = tuple((k, (miss if v == s_ else v)) for k, v in l_[3])
+            pos_ = tuple(miss if v == s_ else v for v in l_[2])
+            if (kw_, pos_) != (l_[3], l_[2]):
+                rt = ("app", l_[1], pos_, kw_)
     ok_vn = rt[0] == "app" and rt[1] == ("attr", stack, "lookup_name")
     if ok_vn:
         pos = list(rt[2]) + [None, None]
@@ -447,8 +456,35 @@ def _check_beta(run: Run, ctx0, m, cls, vc: FuncInfo) -> None:
                 return t[1][1][t[2]]
         return t
 
+    def _zip_side(t):
+        """(zip term, side) if t is the side-th component of one element of zip(A, B)"""
+        if isinstance(t, tuple) and len(t) == 3 and t[0] == "index" and isinstance(t[1], tuple) and len(t[1]) == 2 and t[1][0] == "elem" and isinstance(t[1][1], tuple) and t[1][1][:2] == ("app", ("global", "builtins.zip")) and len(t[1][1][2]) == 2 and t[2] in (0, 1):
+            return t[1][1], t[2]
+        return None
+
+    def _visited_args(t) -> bool:
+        """t is the list / generator of the call's arguments, each visited: [self.visit(a) for a in call.args], map(self.visit, call.args), list(..) of these"""
+        while t[0] == "app" and t[1] in (("global", "builtins.list"), ("global", "builtins.tuple")) and len(t[2]) == 1:
+            t = t[2][0]
+        if t[0] == "comp" and len(t[3]) == 1 and not t[3][0][1]:
+            return t[2] == arg_elem and t[3][0][0] == ("attr", nodep, "args")
+        if t[0] == "app" and t[1] == ("global", "builtins.map") and len(t[2]) == 2:
+            f_, xs_ = t[2]
+            return xs_ == ("attr", nodep, "args") and f_[0] == "attr" and f_[2] == "visit" and f_[1] == ("param", vc.pos_params[0])
+        return False
+
     for d in defines:
         if len(d.args) == 2:
+            zn, zv = _zip_side(strip_sites(d.args[0])), _zip_side(strip_sites(d.args[1]))
+            if zn is not None and zv is not None and zn[0] == zv[0] and (zn[1], zv[1]) == (0, 1):
+                # name and value are the two halves of one element of zip(<names of the parameters>, <visited arguments>)
+                z_ = zn[0]
+                names_t, vals_t = z_[2]
+                params_t = ("attr", ("attr", ("attr", nodep, "func"), "args"), "args")
+                ok_names = names_t[0] == "comp" and len(names_t[3]) == 1 and not names_t[3][0][1] and names_t[3][0][0] == params_t and names_t[2] == ("attr", ("elem", params_t), "arg")
+                if ok_names and _visited_args(vals_t):
+                    run.ok("C02.R3a", vc, "parameters and visited arguments are paired by one zip(names, visited arguments)", show(z_)[:120])
+                    continue
             vt = _through_pairs(d.args[1])
             nt = _through_pairs(d.args[0])
             params_t = ("attr", ("attr", ("attr", nodep, "func"), "args"), "args")
